@@ -509,6 +509,7 @@ func (e *Engine) VerifyFunc(key string) (res *FuncResult) {
 	for i, p := range fn.Params {
 		fr.env[p] = params[i]
 	}
+	fc.topFn, fc.topParams = fn, params
 	// function-local ghost variables (`ghostvar name sort`): initialised to 0 / false / nil
 	if sp != nil {
 		for _, c := range sp.ClausesOf("ghostvar") {
